@@ -36,6 +36,55 @@ type MsgSpec struct {
 	// compares lengths and decoded contents, never two encodings (C07, which
 	// compares emitted bytes with a reference frame, keeps single-entry maps).
 	Entries int `json:"entries,omitempty"`
+	// RefusedBefore (C06 writers only): right before this message is written the
+	// same task makes ONE Marshal call the library refuses, on a throwaway
+	// writer, and recovers: "longver" = a version of more than 16 bytes (the
+	// documented panic), "marshalerr" = a legacy message whose own Marshal
+	// returns an error, "marshalpanic" = one whose Marshal panics. What the
+	// refused call returns is not examined; the frames that FOLLOW must be what
+	// they would have been without it.
+	RefusedBefore string `json:"refused_before,omitempty"`
+}
+
+// refusedMsg is a legacy message whose own Marshal fails (mode "err"), panics
+// (mode "panic") or works (mode ""), with a version of any length.
+type refusedMsg struct {
+	legacyMsg
+	mode string
+	ver  string
+}
+
+var errRefusedMarshal = fmt.Errorf("harness: this message refuses to be encoded")
+
+func (r *refusedMsg) Marshal() ([]byte, error) {
+	switch r.mode {
+	case "err":
+		return nil, errRefusedMarshal
+	case "panic":
+		panic("harness: this message panics when encoded")
+	}
+	return append([]byte(nil), r.Body...), nil
+}
+func (r *refusedMsg) GetVersion() string { return r.ver }
+
+// Refused builds the message of the refused call that precedes m.
+func (m MsgSpec) Refused() proto.Message {
+	body := m.payload()
+	if len(body) > 300 {
+		body = body[:300]
+	}
+	if len(body) == 0 {
+		body = []byte("refused")
+	}
+	switch m.RefusedBefore {
+	case "longver":
+		return &refusedMsg{legacyMsg: legacyMsg{Body: body}, ver: "1.10.100-overlong-version"[:17+int(m.Seed%9)]}
+	case "marshalerr":
+		return &refusedMsg{legacyMsg: legacyMsg{Body: body}, mode: "err", ver: "9.9.9"}
+	case "marshalpanic":
+		return &refusedMsg{legacyMsg: legacyMsg{Body: body}, mode: "panic", ver: "9.9.9"}
+	}
+	return nil
 }
 
 func (m MsgSpec) Version() string {
@@ -428,6 +477,14 @@ func genMsg(r *engine.PRNG, maxLen int) MsgSpec {
 		m.VerHex = hex.EncodeToString(v)
 	}
 	return m
+}
+
+// genRefused decides whether a refused call precedes a message (C06 writers).
+func genRefused(r *engine.PRNG) string {
+	if r.Chance(1, 10) {
+		return r.PickStr("longver", "longver", "marshalerr", "marshalpanic")
+	}
+	return ""
 }
 
 // parseHeader is the harness's INDEPENDENT reading of the 32-byte header
